@@ -15,6 +15,14 @@ Semantics emitted (see DESIGN.md section 2, "Translator"):
   * state that outlives the call (written globals, fields written through a struct pointer
     parameter) is returned in a tuple, in a fixed order, followed by the return value.
 Anything else raises Unsupported, which the caller reports as a broken translation.
+
+Cut mode (`Translator.function(name, cut=True)`), used for the argument-validation prefix of the `*_set_fec_parameters` functions:
+  * the function is translated up to the first statement outside the subset; reaching that statement yields the string "CONTINUE";
+    `return X` with an enumeration constant X yields the string "X"; only that string is returned (field writes are threaded through
+    the prefix but not returned);
+  * assignments used as expressions inside a condition or on the right of an assignment are hoisted in front of the statement
+    (only through parentheses, casts and non-logical binary operators, where C evaluates them unconditionally);
+  * `goto L` continues with the statements from the top-level label L on; pointer parameters are addresses (Nat), NULL is 0.
 """
 import json, subprocess, sys, re, os
 
@@ -33,7 +41,9 @@ def ctype(node):
     q = t.get('desugaredQualType') or t.get('qualType')
     if q is None:
         raise Unsupported('untyped node %s' % node.get('kind'))
-    q = q.replace('const ', '').replace('volatile ', '').strip()
+    q = re.sub(r'\b(const|volatile)\b', '', q)
+    q = re.sub(r'\s+', ' ', q).replace('* *', '**').strip()
+    q = re.sub(r'\s*\*\s*$', ' *', q) if q.endswith('*') else q
     if q in INT_TYPES:
         return INT_TYPES[q]
     if q == 'double' or q == 'float':
@@ -70,6 +80,12 @@ class Fn:
         self.state = []       # ordered list of persistent state names (globals, ptr fields) touched
         self.state_written = []
         self.ret_t = None
+        self.cut = False
+        self.no_cut = 0
+        self.cut_reasons = []
+        self.labels = {}
+        self.field_types = {}
+        self.ptr_used = []
 
     # ---- helpers
     def fresh(self, v):
@@ -107,16 +123,22 @@ class Fn:
             return self.lit(INT_TYPES[q][1] // 8, ctype(n)), ctype(n)
         if k == 'DeclRefExpr':
             name = n['referencedDecl']['name']
+            if n['referencedDecl'].get('kind') == 'EnumConstantDecl' and self.cut:
+                return '"%s"' % name, ('s', 0)
             t = ctype(n)
             if name in env:
                 return env[name], t
+            if self.cut and name in self.ptr_params and t[0] == 'p':
+                if name not in self.ptr_used:
+                    self.ptr_used.append(name)
+                return name + '_0', ('u', 64)
             g = self.tr.const_globals.get(name)
             if g is not None:
                 return self.lit(g, t), t
             raise Unsupported('reference to unknown variable ' + name)
         if k == 'MemberExpr':
             base = n['inner'][0]
-            while base['kind'] in ('ImplicitCastExpr', 'ParenExpr'):
+            while base['kind'] in ('ImplicitCastExpr', 'ParenExpr', 'CStyleCastExpr'):
                 base = base['inner'][0]
             if base['kind'] != 'DeclRefExpr':
                 raise Unsupported('member of non-variable')
@@ -129,7 +151,13 @@ class Fn:
             inner = n['inner'][0]
             if ck in ('LValueToRValue', 'NoOp'):
                 return self.expr(inner, env)
+            if self.cut and ck == 'NullToPointer':
+                return '0', ('u', 64)
+            if self.cut and ck == 'BitCast':
+                return self.expr(inner, env)
             e, st = self.expr(inner, env)
+            if st[0] == 's':
+                return e, st
             dt = ctype(n)
             return self.cast(e, st, dt, inner), dt
         if k == 'UnaryOperator':
@@ -287,11 +315,33 @@ class Fn:
             return n['referencedDecl']['name']
         if n['kind'] == 'MemberExpr':
             base = n['inner'][0]
-            while base['kind'] in ('ImplicitCastExpr', 'ParenExpr'):
+            while base['kind'] in ('ImplicitCastExpr', 'ParenExpr', 'CStyleCastExpr'):
                 base = base['inner'][0]
             if base['kind'] == 'DeclRefExpr':
                 return base['referencedDecl']['name'] + '.' + n['name']
         raise Unsupported('assignment target ' + n['kind'])
+
+    # ---- assignments used as expressions (cut mode): hoist them in front of the statement
+    def hoist(self, n, env, ind):
+        """returns (lines, env, node') where node' has every unconditionally evaluated assignment sub-expression replaced by a read
+        of its target"""
+        k = n.get('kind')
+        if k in ('ParenExpr', 'ImplicitCastExpr', 'CStyleCastExpr', 'ConstantExpr'):
+            lines, env, c = self.hoist(n['inner'][0], env, ind)
+            m = dict(n); m['inner'] = [c] + n['inner'][1:]
+            return lines, env, m
+        if k == 'BinaryOperator' and n.get('opcode') == '=':
+            lines, env, rhs = self.hoist(n['inner'][1], env, ind)
+            name = self.lvalue_name(n['inner'][0])
+            e, t = self.expr(rhs, env)
+            line, env = self.assign(name, e, env, ind)
+            return lines + line, env, n['inner'][0]
+        if k == 'BinaryOperator' and n.get('opcode') not in ('&&', '||', ','):
+            l1, env, a = self.hoist(n['inner'][0], env, ind)
+            l2, env, b = self.hoist(n['inner'][1], env, ind)
+            m = dict(n); m['inner'] = [a, b]
+            return l1 + l2, env, m
+        return '', env, n
 
     def assign(self, name, e, env, ind):
         if name not in env and name not in self.local_names:
@@ -307,11 +357,41 @@ class Fn:
 
     def stmts(self, ss, env, ind, final):
         """Translate the statement list `ss`; `final(env)` produces the result expression when
-        control falls off the end."""
+        control falls off the end.  In cut mode the first statement outside the subset ends the translation with "CONTINUE"."""
+        if not self.cut or self.no_cut:
+            return self._stmts(ss, env, ind, final)
+        saved = dict(self.counter)
+        try:
+            return self._stmts(ss, env, ind, final)
+        except Unsupported as e:
+            self.counter = saved
+            self.cut_reasons.append(str(e))
+            return ind + '"CONTINUE"\n'
+
+    def _stmts(self, ss, env, ind, final):
         if not ss:
             return ind + final(env) + '\n'
         s, rest = ss[0], ss[1:]
         k = s['kind']
+        if k == 'LabelStmt':
+            return self.stmts(s.get('inner', []) + rest, env, ind, final)
+        if k == 'GotoStmt' and self.cut:
+            target = self.labels.get(s.get('targetLabelDeclId'))
+            if target is None:
+                raise Unsupported('goto to a label that is not at the top level of the function')
+            return self.stmts(target, env, ind, final)
+        if self.cut and k in ('BinaryOperator', 'IfStmt'):
+            # hoist assignment sub-expressions
+            if k == 'BinaryOperator' and s.get('opcode') == '=':
+                lines, env, rhs = self.hoist(s['inner'][1], env, ind)
+                if lines:
+                    s = dict(s); s['inner'] = [s['inner'][0], rhs]
+                    return lines + self._stmts([s] + rest, env, ind, final)
+            if k == 'IfStmt':
+                lines, env, c = self.hoist(s['inner'][0], env, ind)
+                if lines:
+                    s = dict(s); s['inner'] = [c] + s['inner'][1:]
+                    return lines + self._stmts([s] + rest, env, ind, final)
         if k == 'CompoundStmt':
             return self.stmts(s.get('inner', []) + rest, env, ind, final)
         if k == 'NullStmt':
@@ -370,6 +450,10 @@ class Fn:
             inner = s.get('inner', [])
             if inner:
                 e, t = self.expr(inner[0], env)
+                if self.cut:
+                    if t[0] != 's':
+                        raise Unsupported('return of a non-constant status in cut mode')
+                    return ind + self.result(env, e) + '\n'
                 if t != self.ret_t and self.ret_t[0] != 'v':
                     e = self.cast(e, t, self.ret_t, inner[0])
                 return ind + self.result(env, e) + '\n'
@@ -463,7 +547,11 @@ class Fn:
         for x, y in zip(mods, st_in):
             benv[x] = y
         benv[v] = ('(%s : Int)' % jv) if vt[0] == 'i' else jv
-        body_txt = self.stmts([body], benv, ind + '      ', lambda e: tup([e[x] for x in mods]))
+        self.no_cut += 1
+        try:
+            body_txt = self.stmts([body], benv, ind + '      ', lambda e: tup([e[x] for x in mods]))
+        finally:
+            self.no_cut -= 1
         st_out = [self.fresh(x.replace('.', '_')) for x in mods]
         out = '%slet %s := (List.range\' %d %d).foldl (fun st (%s : Nat) =>\n' % (
             ind, tup(st_out) if len(mods) != 1 else st_out[0], lo, max(hi - lo, 0), jv)
@@ -477,6 +565,8 @@ class Fn:
         return out + self.stmts(rest, env, ind, final)
 
     def result(self, env, retval):
+        if self.cut:
+            return retval if retval is not None else '"END"'
         parts = [env[s] for s in self.state_out]
         if retval is not None:
             parts.append(retval)
@@ -517,7 +607,10 @@ class Fn:
                 try:
                     nm = self.lvalue_name(n)
                     if nm.split('.')[0] in self.ptr_params and nm not in touched:
-                        touched.append(nm)
+                        t = ctype(n)
+                        if not self.cut or t[0] in ('u', 'i'):
+                            touched.append(nm)
+                            self.field_types[nm] = t
                 except Unsupported:
                     pass
             for c in n.get('inner', []):
@@ -528,16 +621,37 @@ class Fn:
         for s in touched:
             env[s] = s.replace('.', '_') + '_0'
         self.params = params
+        if self.cut:
+            # top-level labels: `goto L` continues with the statements from L on
+            top = body.get('inner', [])
+            for i, st in enumerate(top):
+                if st.get('kind') == 'LabelStmt':
+                    self.labels[st.get('declId')] = top[i:]
         txt = self.stmts([body], env, '  ', lambda e: self.result(e, None))
+        if self.cut:
+            # keep only the inputs the translated prefix mentions
+            used = lambda v: re.search(r'(?<![\w.])%s(?![\w])' % re.escape(v), txt) is not None
+            self.state = [s_ for s_ in self.state if used(s_.replace('.', '_') + '_0')]
+            self.ptr_used = [p_ for p_ in self.ptr_used if used(p_ + '_0')]
+            self.state_out = []
         def lt(t):
             return {'u': 'Nat', 'i': 'Int', 'f': 'Rat'}[t[0]]
         args = ''
         if self.uses_rn:
             args += ' (rn : Rat → Rat)'
         for s in self.state:
-            args += ' (%s_0 : %s)' % (s.replace('.', '_'), self.tr.state_type(s))
+            ft = self.field_types.get(s)
+            st_t = {'u': 'Nat', 'i': 'Int'}[ft[0]] if (self.cut and ft) else self.tr.state_type(s)
+            args += ' (%s_0 : %s)' % (s.replace('.', '_'), st_t)
+        for n in self.ptr_used:
+            args += ' (%s_0 : Nat)' % n
         for n, t in params:
             args += ' (%s_0 : %s)' % (n, lt(t))
+        if self.cut:
+            hdr = '/-- generated from %s:%s (validation prefix; translation stops at: %s); inputs: %s -/\ndef %s%s : String :=\n' % (
+                os.path.basename(self.tr.path), self.name, '; '.join(sorted(set(self.cut_reasons))) or 'end of function',
+                ', '.join(self.state + self.ptr_used) or 'none', self.tr.lname(self.name), args)
+            return hdr + txt
         hdr = '/-- generated from %s:%s; state in/out: %s -/\ndef %s%s :=\n' % (
             os.path.basename(self.tr.path), self.name, ', '.join(self.state) or 'none', self.tr.lname(self.name), args)
         return hdr + txt
@@ -573,11 +687,12 @@ class Translator:
     def state_type(self, s):
         return self.state_types.get(s, 'Nat')
 
-    def function(self, name):
+    def function(self, name, cut=False):
         for d in self.docs:
             if d.get('kind') == 'FunctionDecl' and d.get('name') == name and \
                     any(c.get('kind') == 'CompoundStmt' for c in d.get('inner', [])):
                 f = Fn(self, d)
+                f.cut = cut
                 txt = f.translate()
                 self.fns[name] = f
                 return txt
